@@ -515,6 +515,59 @@ def run_slow_incoming(params, obs):
     return problems
 
 
+def run_messages_behind_term(role, obs):
+    ''' The endpoint has asked for termination while a transfer from the peer is under way; the peer's SESS_TERM and the rest of
+    that transfer arrive in ONE read.  Every message in it is acted on: the transfer completes, is acknowledged, the endpoint closes. '''
+    from vf.world.sim import Sim
+    from vf import tcpcl_harness as th
+    sim = Sim(seed=0, policy='eager')
+    sock_a, sock_b = sim.net.tcp_pair()
+    cfg = th.make_config('dtn://under-test/')
+    if role == 'passive':
+        end = th.Endpoint(sim, 'E', cfg, sock_b, passive=True, peer_addr=('10.0.0.1', 40001))
+        peer_sock, end_sock = sock_a, sock_b
+    else:
+        end = th.Endpoint(sim, 'E', cfg, sock_a, passive=False, peer_addr=('10.0.0.2', 4556))
+        peer_sock, end_sock = sock_b, sock_a
+    end.start()
+    sim.settle(20000)
+
+    def write(data):
+        peer_sock.tx.write(data)
+        sim.settle(50000)
+
+    write(tw.encode(dict(type='contact', flags=0)))
+    write(tw.encode(dict(type='SESS_INIT', keepalive=0, segment_mru=2 ** 20, transfer_mru=2 ** 30, nodeid=b'dtn://peer/', ext=[])))
+    parts = [b'first-part-', b'second-part-', b'last']
+    write(tw.encode(dict(type='XFER_SEGMENT', flags=tw.FLAG_START, transfer_id=9, ext=[tw.transfer_length_ext(sum(len(p) for p in parts))], data=parts[0])))
+    try:
+        end.call('terminate', dbus.Byte(0))
+        obs['terminate_accepted'] += 1
+    except Exception:  # pylint: disable=broad-except
+        obs['terminate_refused'] += 1
+    sim.settle(50000)
+    write(tw.encode(dict(type='SESS_TERM', flags=tw.TERM_REPLY, reason=0))
+          + tw.encode(dict(type='XFER_SEGMENT', flags=0, transfer_id=9, data=parts[1]))
+          + tw.encode(dict(type='XFER_SEGMENT', flags=tw.FLAG_END, transfer_id=9, data=parts[2])))
+    obs['runs'] += 1
+    obs['waiter_terminations'] += 1
+    msgs = [m for (m, _e) in tw.parse_stream(end_sock.tx.all_bytes())[0]]
+    acks = [m for m in msgs if m['type'] == 'XFER_ACK' and m['transfer_id'] == 9]
+    fin = sim.hist.signals('recv_bundle_finished')
+    what = '%s endpoint terminating, the peer\'s SESS_TERM and the two remaining segments of its transfer in one read' % role
+    if sim.world.callback_errors:
+        return [('raised', '%s: callback raised %s' % (what, sim.world.callback_errors[0].exc_type))]
+    problems = []
+    if not (acks and acks[-1]['flags'] & tw.FLAG_END) or not fin:
+        problems.append(('slow/cut', '%s: the transfer in progress was not completed and acknowledged (ACKs %s, finished signals %d)' % (
+            what, [(m['flags'], m['length']) for m in acks], len(fin))))
+    if not end_sock.closed:
+        problems.append(('half-open', '%s: nothing is in progress any more but the endpoint is still open' % what))
+    else:
+        obs['waiter_closed_by_endpoint'] += 1
+    return problems
+
+
 def classify(kind, text):
     return None
 
@@ -608,6 +661,11 @@ def run_case(case):
                 violations.append(dict(key=classify(kind, text), what='[%s] %s' % (kind, text), detail=dict(params=params)))
         # both SESS_TERM exchanged, something still pending, and then a peer that says nothing more (socket open): with an idle time
         # configured the endpoint still closes in bounded time (the timer runs of C14 are reused; here the half-open outcome counts)
+        for role in ('passive', 'active'):
+            for (kind, text) in run_messages_behind_term(role, obs):
+                violations.append(dict(key=classify(kind, text), what='[%s] %s' % (kind, text), detail=dict(role=role)))
+            evaluations += 1
+            classes.add('behind-term|%s' % role)
         from vf.props import c14
         obs14 = dict(runs=0, mute_peer_closures=0)
         # a session that never came about (the peer's SESS_INIT was refused) ends like any other: SESS_TERM, the peer's answer, close
